@@ -3,7 +3,7 @@
 // List queues (q.Q, async.Q, mux.Q, mq.MQ, SyncQueue): four consumer goroutines and one goroutine for
 // the non-blocking calls; the driver issues ONE call, waits for global quiescence (internal/qx reads
 // the wait reason of every goroutine from the Go runtime) and logs who returned with what and who
-// is parked in sync.Cond.Wait.  Validation: specs/queue/QueueWake_Trace.tla.
+// is blocked inside its Pop (parked in sync.Cond.Wait).  Validation: specs/queue/QueueWake_Trace.tla.
 //
 // priq.PriQueue: four goroutines call Push / Pop; with the gate hooks armed a call stops between
 // its mutex hold and its signal, the plan's "gate" step lets it continue.  After every step
@@ -136,11 +136,9 @@ func (wd *lworld) step(a act) {
 					rep = re
 				}
 			} else {
-				ws := wd.x.WaitState(c)
-				if ws == "sync.Cond.Wait" {
-					ws = "parked"
-				}
-				st[c-1] = tr.E{"s": ws, "r": none()}
+				// global quiescence and no reply: the consumer is blocked inside its Pop, whatever
+				// primitive the queue waits on (the wait reason is logged, not compared)
+				st[c-1] = tr.E{"s": "parked", "r": none(), "why": wd.x.WaitState(c)}
 			}
 		}
 	}
@@ -449,7 +447,12 @@ func (wd *pworld) call(p int, op string) {
 	if op == "push" || op == "pushx" {
 		wd.id++
 		e := &pent{wd.id}
-		wd.x.Issue(p, func() interface{} {
+		wd.x.Issue(p, func() (r interface{}) {
+			defer func() {
+				if pv := recover(); pv != nil {
+					r = qa.Rp("panic", 0)
+				}
+			}()
 			if err := q.Push(e); err == priq.ErrQueueIsFull {
 				return qa.Rp("full", 0)
 			} else if err != nil {
@@ -459,7 +462,12 @@ func (wd *pworld) call(p int, op string) {
 		})
 		return
 	}
-	wd.x.Issue(p, func() interface{} {
+	wd.x.Issue(p, func() (r interface{}) {
+		defer func() {
+			if pv := recover(); pv != nil {
+				r = qa.Rp("panic", 0)
+			}
+		}()
 		if e := q.Pop(); e == nil {
 			return qa.Rp("empty", 0)
 		}
